@@ -29,8 +29,10 @@ func C15_Extract() {
 		caches: []int{0}, fast: []bool{false}, thresh: []int{0}, refHash: true}
 	maxV, maxW := 2, 2
 	if vTier() == "thorough" {
-		maxV, maxW = 3, 2
-		cfg.valVars = 2
+		// the quick profile (V<=2, W<=2) plus deeper histories with one write per version
+		if vChoice("profile", 2) == 1 {
+			maxV, maxW = 3, 1
+		}
 		cfg.caches = []int{0, 10000}
 	}
 	h := vStartHist(cfg)
